@@ -1,7 +1,7 @@
 (* C10 — nearest-centre assignment and per-trajectory bookkeeping are exact.
    gen_partition_indices / gen_partition_list are regenerated from enspara/ra/ra.py on every run. *)
 From Coq Require Import List ZArith QArith.
-From EV Require Import PySlice PartitionBase PartitionGen Cluster ClusterBase Partition PartitionProofs KcGuardBase ClusterGen ClusterSkel ClusterGenProofs PartitionSkel UtilGenProofs PartitionAddress BatchBudget.
+From EV Require Import PySlice PartitionBase PartitionGen Cluster ClusterBase Partition PartitionProofs KcGuardBase ClusterGen ClusterSkel ClusterGenProofs PartitionSkel UtilGenProofs PartitionAddress BatchBudget BatchNonEmpty.
 Import ListNotations.
 
 (* every frame gets a centre at minimal distance and exactly that distance; ties go to the first
@@ -129,6 +129,13 @@ Print Assumptions c10_address_example.
 Theorem c10_batches_respect_budget : forall lens bs, Forall (batch_ok bs lens) (compute_batches lens bs).
 Proof. exact compute_batches_budget. Qed.
 Print Assumptions c10_batches_respect_budget.
+
+(* there is always at least one batch and only the first can be empty (when the first trajectory
+   alone reaches batch_size) *)
+Theorem c10_only_first_batch_can_be_empty : forall lens bs,
+  compute_batches lens bs <> [] /\ Forall (fun b => b <> []) (tl (compute_batches lens bs)).
+Proof. exact compute_batches_nonempty. Qed.
+Print Assumptions c10_only_first_batch_can_be_empty.
 
 Example c10_example :
   gen_partition_indices [0; 2; 3; 3; 9; 4]%Z [3; 1; 4; 2]%Z = [(0, 0); (0, 2); (1, 0); (1, 0); (3, 1); (2, 0)]%Z /\
